@@ -706,6 +706,161 @@ def leg_sim(run, t, S, L, budget):
         run.v("sim.run", type(e).__name__, f"simulation raises {type(e).__name__}: {e}")
 
 
+# ---------------------------------------------------------------- leg: run-time index (in and out of range) into an
+# array field that is followed / preceded by other fields: testbench write == circuit assignment == reference
+def oor_specs(quick):
+    """(outer term, path to the array field, index width): arrays of 3 (not a power of two) and of 2 / 4 elements with an
+    index signal one bit wider than needed, first / middle / last in a struct, inside a union with a wider member, and
+    one level deeper (inner struct followed by more fields)"""
+    u1, u2, s2 = ("u", 1), ("u", 2), ("s", 2)
+    elems = [u1, s2, ("struct", (u1, s2))] + ([] if quick else [("E", "EU"), ("union", (u1, s2)), ("array", u1, 2)])
+    out = []
+    for e in elems:
+        for n, idxw in ((3, 2), (3, 3), (2, 2), (4, 3)):
+            arr = ("array", e, n)
+            aw = R.width(arr)
+            outers = [
+                (("struct", (arr, u2, s2)), ("a",)),
+                (("struct", (u2, arr, s2)), ("b",)),
+                (("struct", (u2, s2, arr)), ("c",)),
+                (("union", (arr, ("u", aw + 3))), ("a",)),
+                (("struct", (u2, ("struct", (arr, s2)), u2)), ("b", "a")),
+                (("struct", (s2, ("struct", (u2, arr)), u2)), ("b", "b")),
+                (("struct", (u1, ("union", (arr, ("u", aw + 2))), s2)), ("b", "a")),
+            ]
+            for outer, path in outers:
+                out.append((outer, path, idxw))
+    return out
+
+
+def oor_show(spec):
+    outer, path, idxw = spec
+    return f"{R.show(outer)}@{'.'.join(map(str, path))}:idxw={idxw}"
+
+
+def check_oor(spec, out):
+    from amaranth.hdl import Module, Signal
+    from ..sim.driver import elaborate, run_in_testbench
+    outer, path, idxw = spec
+    show = oor_show(spec)
+    cov = out["cov"]
+    seen = set()
+
+    def v(law, detail, what):
+        sig = f"sim.oor_write.{law}:{show}:{detail}"
+        if sig not in seen:
+            seen.add(sig)
+            out["violations"].append({"sig": sig, "what": f"{show}: {what}",
+                                      "payload": {"kind": "oor", "spec": [outer, list(path), idxw], "sig": sig}})
+
+    def n(key, k=1):
+        cov[key] = cov.get(key, 0) + k
+    n("oor_designs")
+    n("distinct_nontrivial")
+    # ---- reference geometry
+    t, arr_off = outer, 0
+    for key in path:
+        for k2, x2, o2 in R.fields(t):
+            if k2 == key:
+                t, arr_off = x2, arr_off + o2
+                break
+        else:
+            raise KeyError(key)
+    arr = t
+    assert arr[0] == "array"
+    elem, length = arr[1], arr[2]
+    we = R.width(elem)
+    w = R.width(outer)
+    arr_mask = R.mask(R.width(arr)) << arr_off
+    # targets: the element itself and (for aggregate elements) each of its fields: (name, sub key or None, term, offset in element)
+    targets = [("elem", None, elem, 0)]
+    if not R.is_leaf(elem):
+        for k2, x2, o2 in R.fields(elem):
+            targets.append((f"elem[{k2!r}]", k2, x2, o2))
+    S = build(outer)
+    src = Signal(S, name="src")
+    bg = Signal(w, name="bg")
+    idx = Signal(idxw, name="idx")
+    val = Signal(max(R.width(x) for _n, _k, x, _o in targets), name="val")
+
+    def locate(view, sub):
+        for key in path:
+            view = view[key]
+        e = view[idx]
+        return e if sub is None else e[sub]
+    m = Module()
+    wds = []
+    for name, sub, x, o in targets:
+        wd = Signal(S, name="wd")
+        m.d.comb += wd.as_value().eq(bg)
+        m.d.comb += locate(wd, sub).eq(val[:R.width(x)])
+        wds.append(wd.as_value())
+    tb_targets = [locate(src, sub) for _n, sub, _x, _o in targets]
+    keep = Signal(1)
+    m.d.comb += keep.eq(src.as_value().any() ^ idx.any())
+    frag = elaborate(m)
+    full = R.mask(w)
+    cost = (1 << w) * (1 << idxw) * sum(1 << R.width(x) for _n, _k, x, _o in targets)
+    if cost <= 16384:
+        bgs = list(range(1 << w))
+    else:
+        bgs = sorted({0, full, 0x5555 & full, 0xAAAA & full})
+        n("oor_designs_with_corner_backgrounds")
+
+    def body(ctx):
+        src_v = src.as_value()
+        for bgv in bgs:
+            ctx.set(bg, bgv)
+            for i in range(1 << idxw):
+                ctx.set(idx, i)
+                for (name, sub, x, o), wd_v, tgt in zip(targets, wds, tb_targets):
+                    wx = R.width(x)
+                    for fv in range(1 << wx):
+                        tv = typed_value(x, fv)
+                        if tv is None:
+                            continue
+                        ctx.set(val, fv)
+                        circuit = ctx.get(wd_v)
+                        ctx.set(src_v, bgv)
+                        try:
+                            ctx.set(tgt, tv)
+                            tb = ctx.get(src_v)
+                        except Exception as e:
+                            tb = ("exc", type(e).__name__)
+                        n("evaluations", 3)
+                        n("oor_writes")
+                        where = f"{name}:idx={i}"
+                        if tb != circuit:
+                            v("differential", where, f"ctx.set(view.{'.'.join(map(str, path))}[idx]{'' if sub is None else '[%r]' % sub}, {tv!r}) with idx={i} over "
+                              f"{bgv:#x} leaves {tb if not isinstance(tb, int) else hex(tb)}, the same assignment as a comb statement gives {circuit:#x}")
+                        if i < length:
+                            n("oor_in_range_writes")
+                            mk = R.mask(wx) << (arr_off + i * we + o)
+                            want = (bgv & ~mk) | ((fv << (arr_off + i * we + o)) & mk)
+                            if circuit != want:
+                                v("reference", where + ":comb", f"comb assignment of {fv} with idx={i} over {bgv:#x} gives {circuit:#x}, only the element's bits may change: {want:#x}")
+                            if isinstance(tb, int) and tb != want:
+                                v("reference", where + ":set", f"ctx.set of {tv!r} with idx={i} over {bgv:#x} gives {tb:#x}, only the element's bits may change: {want:#x}")
+                        else:
+                            n("oor_out_of_range_writes")
+                            if (circuit ^ bgv) & ~arr_mask:
+                                v("outside", where + ":comb", f"comb assignment with out-of-range idx={i} (length {length}) over {bgv:#x} gives {circuit:#x}: bits outside the array field changed")
+                            if isinstance(tb, int) and (tb ^ bgv) & ~arr_mask:
+                                v("outside", where + ":set", f"ctx.set(..., {tv!r}) with out-of-range idx={i} (length {length}) over {bgv:#x} gives {tb:#x}: bits outside the array field changed")
+    try:
+        run_in_testbench(frag, body)
+    except Exception as e:
+        v("run", type(e).__name__, f"simulation raises {type(e).__name__}: {e}")
+
+
+def w_oor(task):
+    out = {"cov": {"evaluations": 0, "distinct_nontrivial": 0}, "samples": [], "violations": []}
+    warnings.simplefilter("ignore")
+    for spec in task:
+        check_oor(spec, out)
+    return out
+
+
 def check_term(t, out, quick):
     from amaranth.lib import data
     run = Run(out, t)
@@ -1028,7 +1183,7 @@ def w_enums(task):
 
 def _dispatch(task):
     kind, arg = task
-    return kind, (w_layouts(arg) if kind == "layouts" else w_enums(arg))
+    return kind, (w_layouts(arg) if kind == "layouts" else w_oor(arg) if kind == "oor" else w_enums(arg))
 
 
 # ---------------------------------------------------------------- driver
@@ -1045,6 +1200,9 @@ def run(rep):
         tasks.append(("enums", ch))
     for ch in chunks(fspecs, 12):
         tasks.append(("enums", ch))
+    ospecs = oor_specs(rep.quick)
+    for ch in chunks(ospecs, 3):
+        tasks.append(("oor", ch))
     tasks = rotate(tasks, rep.seed)
     by = {}
     for kind, part in pmap(_dispatch, tasks, rep.procs):
@@ -1054,6 +1212,7 @@ def run(rep):
     rep.setcov("layout_terms", len(terms))
     rep.setcov("enum_specs", len(especs))
     rep.setcov("flag_specs", len(fspecs))
+    rep.setcov("oor_specs", len(ospecs))
     rep.setcov("max_layout_bits", G.MAXSIZE)
     rep.setcov("exhaustive", True)
     rep.setcov("rule", "every layout term of vf/gen/c15_terms.py (struct/union <= %s leaf fields, arrays, flexible layouts with "
@@ -1063,6 +1222,10 @@ def run(rep):
                "before / all ones after; const() and Signal(init=)) + "
                "read-back + Signal init, View field shape/wrapper/constant folding, simulator ctx.get/ctx.set per field, comb "
                "copy through fields, comb assignment through each field (static and dynamic array index) for every field value}; "
+               "run-time index leg: arrays of 3 / 2 / 4 elements (index signal exact or one bit too wide) placed first / middle / last in a "
+               "struct, in a union with a wider member and one level deeper x EVERY index value (in and out of range) x backgrounds x "
+               "every element / element-field value: ctx.set == the same comb assignment; in range == reference; out of range: no bit "
+               "outside the array field changes; "
                "write backgrounds are all patterns when patterns x field values <= budget, else {0, ones, 0x55, 0xAA} (counted in "
                "layouts_with_corner_backgrounds). Enumerations: every member subset (size <= 3/4) of every shape u1..u3(4), s1..s3 for "
                "Enum/IntEnum; Flag/IntFlag over every subset of single-bit flags (+alias, +zero member) x 5 boundary modes: all "
@@ -1082,7 +1245,7 @@ def run(rep):
                 "sim_dynamic_reads", "sim_field_writes", "sim_dynamic_writes", "layouts_with_overlap", "layouts_with_gap",
                 "layouts_with_zero_width_field", "layouts_depth2", "enum_member_roundtrips", "flag_op_evaluations",
                 "negative_index_checks", "enum_raw_roundtrips", "placement_fields", "field_reads", "hdlconst_inits",
-                "hdlconst_width_mismatch_inits"):
+                "hdlconst_width_mismatch_inits", "oor_in_range_writes", "oor_out_of_range_writes"):
         rep.require(c.get(key, 0) > 0, f"antecedent never exercised: {key}")
 
 
@@ -1091,6 +1254,9 @@ def replay(payload):
     warnings.simplefilter("ignore")
     if payload["kind"] == "layout":
         check_term(R.tup(payload["term"]), out, True)
+    elif payload["kind"] == "oor":
+        spec = payload["spec"]
+        check_oor((R.tup(spec[0]), tuple(spec[1]), spec[2]), out)
     else:
         spec = payload["spec"]
         check_enum((spec[0], spec[1], spec[2], tuple(spec[3]), spec[4]), out)
